@@ -16,14 +16,27 @@ class BQLSemantics:
     def null(self, value):
         return None
 
+    def _invalid(self, value):
+        # Invalid literals are reported as syntax errors at the position
+        # of the literal. Raising a TatSu parse failure here would make
+        # the parser backtrack and read a date as a subtraction.
+        pos = self._ctx.tokenizer.pos
+        return InvalidLiteral(self._ctx.tokenizer, pos - len(value), pos)
+
     def integer(self, value):
-        return int(value)
+        try:
+            return int(value)
+        except ValueError as exc:
+            raise self._invalid(value) from exc
 
     def decimal(self, value):
         return decimal.Decimal(value)
 
     def date(self, value):
-        return datetime.datetime.strptime(value, '%Y-%m-%d').date()
+        try:
+            return datetime.datetime.strptime(value, '%Y-%m-%d').date()
+        except ValueError as exc:
+            raise self._invalid(value) from exc
 
     def string(self, value):
         return value[1:-1]
@@ -50,6 +63,14 @@ class BQLSemantics:
         return value
 
 
+class InvalidLiteral(Exception):
+    def __init__(self, tokenizer, pos, endpos):
+        super().__init__()
+        self.tokenizer = tokenizer
+        self.pos = pos
+        self.endpos = endpos
+
+
 class ParseError(ProgrammingError):
     def __init__(self, parseinfo):
         super().__init__('syntax error')
@@ -66,4 +87,8 @@ def parse(text):
             # Empty input has no line to report.
             line = 0
         parseinfo = tatsu.infos.ParseInfo(exc.tokenizer, exc.item, exc.pos, exc.pos + 1, line, [])
+        raise ParseError(parseinfo) from exc
+    except InvalidLiteral as exc:
+        line = exc.tokenizer.line_info(exc.pos).line
+        parseinfo = tatsu.infos.ParseInfo(exc.tokenizer, 'literal', exc.pos, exc.endpos, line, [])
         raise ParseError(parseinfo) from exc
